@@ -76,16 +76,32 @@ pub struct Case {
 const METHODS: [&str; 4] = ["single", "complete", "average", "union"];
 
 /// symmetric pseudo-random distance of two sets, a function of their contents only
-/// v * 10^e, rounded once (the result may be subnormal)
-fn scaled(v: f32, e: i8) -> f32 {
-    if e == 0 {
-        v
+/// Exponent code for "scaled so that the largest distance is 3e38": finite, but sums of two distances overflow f32.
+pub const SCALE_TOP: i8 = 127;
+
+/// The factor of a magnitude class: 10^e, or for `SCALE_TOP` the factor that maps `max_abs` to 3e38.
+fn scale_factor(e: i8, max_abs: f64) -> f64 {
+    if e == SCALE_TOP {
+        if max_abs == 0.0 {
+            1.0
+        } else {
+            3.0e38 / max_abs
+        }
     } else {
-        (f64::from(v) * 10f64.powi(i32::from(e))) as f32
+        10f64.powi(i32::from(e))
     }
 }
 
-fn content_distance(seed: u64, shift: f32, inf: (u8, bool, i8), a: &BTreeSet<u32>, b: &BTreeSet<u32>) -> f32 {
+/// v * factor, rounded once (the result may be subnormal)
+fn scaled(v: f32, factor: f64) -> f32 {
+    if factor == 1.0 {
+        v
+    } else {
+        (f64::from(v) * factor) as f32
+    }
+}
+
+fn content_distance(seed: u64, shift: f32, inf: (u8, bool, f64), a: &BTreeSet<u32>, b: &BTreeSet<u32>) -> f32 {
     let h = |s: &BTreeSet<u32>| {
         let mut f = Fnv::new();
         f.u64(seed);
@@ -166,14 +182,17 @@ pub fn check(c: &Case, stats: &mut Stats) -> CheckResult {
             table[j * n + i] = inf_value;
         }
     }
-    ensure!((-45..=30).contains(&c.scale_exp), "harness/bad-case", "scale exponent out of range");
+    ensure!((-45..=30).contains(&c.scale_exp) || c.scale_exp == SCALE_TOP, "harness/bad-case", "scale exponent out of range");
+    let max_abs = table.iter().filter(|v| v.is_finite()).fold(0.0f64, |m, v| m.max(f64::from(v.abs())));
+    let factor = scale_factor(c.scale_exp, max_abs);
     for v in table.iter_mut() {
-        *v = scaled(*v, c.scale_exp);
+        *v = scaled(*v, factor);
     }
+    ensure!(table.iter().all(|v| !v.is_nan()) && (c.scale_exp != SCALE_TOP || table.iter().all(|v| v.is_infinite() || v.abs() <= 3.0001e38)), "harness/bad-case", "scaling produced a value outside the class");
     let table = &table;
     let seed = c.seed;
     let shift = c.shift;
-    let inf = (c.inf_rate, c.inf_neg, c.scale_exp);
+    let inf = (c.inf_rate, c.inf_neg, if method == 3 { scale_factor(c.scale_exp, 2.0) } else { factor });
     // a set handed to the callback must be a set: strictly ascending iteration, len() = number of terms
     let malformed: RefCell<Option<String>> = RefCell::new(None);
     let distance = |combs: Combinations<HpoSet<'_>>| -> Vec<f32> {
@@ -323,7 +342,16 @@ pub fn check(c: &Case, stats: &mut Stats) -> CheckResult {
                 1 => {
                     if d1 > d2 { d1 } else { d2 }
                 }
-                2 => (d1 + d2) / 2.0,
+                2 => {
+                    // the mean of the two parts, rounded once: the sum of two finite distances may exceed
+                    // f32::MAX while their mean does not
+                    let s = d1 + d2;
+                    if s.is_finite() || d1.is_infinite() || d2.is_infinite() {
+                        s / 2.0
+                    } else {
+                        d1 / 2.0 + d2 / 2.0
+                    }
+                }
                 _ => content_distance(seed, shift, inf, &merged, &content[x]),
             };
             dist.insert(key(*x, new), nd);
@@ -372,6 +400,9 @@ pub fn check(c: &Case, stats: &mut Stats) -> CheckResult {
     if clusters.iter().any(|c| c.2 != 0.0 && c.2.abs() < f32::EPSILON) {
         stats.label("distance-below-epsilon");
     }
+    if c.scale_exp == SCALE_TOP && clusters.iter().any(|c| c.2.is_finite() && c.2.abs() > 1.8e38) {
+        stats.label("finite-distances-above-half-of-f32-max");
+    }
     if clusters.iter().any(|c| c.2.is_finite() && c.2.abs() > 1e9) {
         stats.label("distance-above-1e9");
     }
@@ -394,7 +425,7 @@ pub fn check(c: &Case, stats: &mut Stats) -> CheckResult {
 
 fn strategy(tier: Tier) -> BoxedStrategy<Case> {
     let max = if tier == Tier::Quick { 24usize } else { 40 };
-    (2..=max, 0u8..4, vec(any::<u16>(), NT as usize), vec(0u8..8, 40), vec(any::<u32>(), 40 * 40), any::<u64>(), proptest::bool::weighted(0.15), 0u8..4, 0u8..5, (0u8..10, vec((any::<u16>(), any::<u16>()), 1..6), any::<bool>(), prop_oneof![8 => Just(0i8), 1 => Just(-10i8), 1 => Just(-9i8), 1 => -30i8..=-5, 1 => 5i8..=30, 1 => -45i8..=-36]))
+    (2..=max, 0u8..4, vec(any::<u16>(), NT as usize), vec(0u8..8, 40), vec(any::<u32>(), 40 * 40), any::<u64>(), proptest::bool::weighted(0.15), 0u8..4, 0u8..5, (0u8..10, vec((any::<u16>(), any::<u16>()), 1..6), any::<bool>(), prop_oneof![8 => Just(0i8), 1 => Just(-10i8), 1 => Just(-9i8), 1 => -30i8..=-5, 1 => 5i8..=30, 1 => -45i8..=-36, 1 => Just(SCALE_TOP)]))
         .prop_map(|(n, method, keys, extra, raw, seed, coarse, sign, iter_kind, (inf_sel, inf_raw, inf_neg, scale_exp))| {
             // a random partition of a prefix of the 96 terms into n non-empty sets
             let mut order: Vec<(u16, u32)> = keys.iter().enumerate().map(|(i, k)| (*k, i as u32 + 1)).collect();
@@ -515,7 +546,7 @@ impl Property for C17 {
         "C17"
     }
     fn rule(&self) -> String {
-        "Generated: n in 2..=24 (thorough 40) input sets with pairwise different contents, in one case of four overlapping (mostly singletons, some with 2-3 terms, in one case of ten one input is the empty set) over a flat 96-term ontology, handed over as a Vec or as iterators without an exact size hint (filter, chain, map_while); for single/complete/average a generated symmetric table of initial distances (distinct values, or few values so that ties are frequent; shifted so that distances are all positive, mixed-sign, all negative or touch zero; in one case of five some pairs - for n <= 6 sometimes all - are infinitely far apart, +inf or -inf but never both; in one case of three all distances are scaled by 10^e, e in -45..=30, so that they lie far below f32::EPSILON, among the subnormal numbers, or far above 1); for union a symmetric pseudo-random distance that is a function of the two sets' contents, so merged sets get fresh values. Oracle = validity predicate simulated along the library's own merge choices (ties admit several dendrograms): exactly n-1 merges; each merge joins two live, different clusters (inputs or earlier merges n+k), so every input and intermediate cluster is merged exactly once and one cluster remains; the reported distance equals the pair's current distance bit for bit and no live pair is strictly closer; distances to the new cluster follow the method (min / max / mean of the two parts in f32 / content function of the union); len adds up and is n at the last merge; indicies() is a permutation of 0..n; cluster(), iter(), &linkage and into_cluster() agree, also when read from the back (rev) or from both ends in a generated order of next / next_back calls, with len() equal to the number of merges left at every step; the first callback invocation asks every unordered pair of inputs exactly once (later invocations, which also pair the new set with itself, are not constrained). evaluations = clusterings. Non-trivial = n >= 4 and some merge joins two earlier clusters; distinct by hash of the case.".into()
+        "Generated: n in 2..=24 (thorough 40) input sets with pairwise different contents, in one case of four overlapping (mostly singletons, some with 2-3 terms, in one case of ten one input is the empty set) over a flat 96-term ontology, handed over as a Vec or as iterators without an exact size hint (filter, chain, map_while); for single/complete/average a generated symmetric table of initial distances (distinct values, or few values so that ties are frequent; shifted so that distances are all positive, mixed-sign, all negative or touch zero; in one case of five some pairs - for n <= 6 sometimes all - are infinitely far apart, +inf or -inf but never both; in one case of three all distances are scaled by 10^e, e in -45..=30, so that they lie far below f32::EPSILON, among the subnormal numbers, or far above 1; one further class scales them so that the largest is 3e38: all finite, but the sum of two distances can exceed f32::MAX); for union a symmetric pseudo-random distance that is a function of the two sets' contents, so merged sets get fresh values. Oracle = validity predicate simulated along the library's own merge choices (ties admit several dendrograms): exactly n-1 merges; each merge joins two live, different clusters (inputs or earlier merges n+k), so every input and intermediate cluster is merged exactly once and one cluster remains; the reported distance equals the pair's current distance bit for bit and no live pair is strictly closer; distances to the new cluster follow the method (min / max / mean of the two parts in f32 / content function of the union); len adds up and is n at the last merge; indicies() is a permutation of 0..n; cluster(), iter(), &linkage and into_cluster() agree, also when read from the back (rev) or from both ends in a generated order of next / next_back calls, with len() equal to the number of merges left at every step; the first callback invocation asks every unordered pair of inputs exactly once (later invocations, which also pair the new set with itself, are not constrained). evaluations = clusterings. Non-trivial = n >= 4 and some merge joins two earlier clusters; distinct by hash of the case.".into()
     }
     fn assumptions(&self) -> Vec<String> {
         vec![
@@ -530,7 +561,7 @@ impl Property for C17 {
         }
     }
     fn required_labels(&self, _tier: Tier) -> Vec<&'static str> {
-        vec!["nontrivial", "single", "complete", "average", "union", "tie", "multi-term-inputs", "empty-input-set", "input-iterator-without-exact-size", "all-merge-distances-negative", "mixed-sign-distances", "infinite-distance", "all-distances-infinite", "distance-below-epsilon", "distance-above-1e9", "inputs>255", "overlapping-input-sets"]
+        vec!["nontrivial", "single", "complete", "average", "union", "tie", "multi-term-inputs", "empty-input-set", "input-iterator-without-exact-size", "all-merge-distances-negative", "mixed-sign-distances", "infinite-distance", "all-distances-infinite", "distance-below-epsilon", "distance-above-1e9", "inputs>255", "overlapping-input-sets", "finite-distances-above-half-of-f32-max"]
     }
     fn run_generated(&self, tier: Tier, seed: u64, n: u64, stats: &mut Stats) -> Option<(Value, Failure)> {
         run_typed(strategy(tier), seed, n, stats, check)
